@@ -95,9 +95,16 @@ func vnRun(t *testing.T, tr *vkTrace, bh vnBehaviour) { //nolint:cyclop
 				"needs": false, "drained": drained, "sig": "drained(after=" + step + ")"})
 		}
 	}
+	// a data channel needs a negotiation only if no application section is negotiated or being negotiated:
+	// an offer or answer under way that has the section already covers it
 	hasApp := func(pc *PeerConnection) bool {
-		d := pc.CurrentLocalDescription()
-		return d != nil && strings.Contains(d.SDP, "m=application")
+		for _, d := range []*SessionDescription{pc.CurrentLocalDescription(), pc.PendingLocalDescription(),
+			pc.CurrentRemoteDescription(), pc.PendingRemoteDescription()} {
+			if d != nil && strings.Contains(d.SDP, "m=application") {
+				return true
+			}
+		}
+		return false
 	}
 	for _, st := range bh.Steps {
 		pc := pcs[st.Who]
